@@ -380,12 +380,63 @@ def list_item_stream(ctx, res):
                             res.violate("C14:assignment-does-not-win", "an explicit assignment to a variable-bound field of a list item is not the value held", dict(case, after=after))
 
 
+def per_configuration_stream(ctx, res):
+    """the variable is validated for EVERY configuration that is built: a validator that looks at the configuration (another field given
+    as a constructor keyword) decides per configuration; a validator that returns a mutable value gives each configuration its own;
+    a variable that changes between two constructions is read again"""
+    import os
+    import cincoconfig as cc
+    from cincoconfig.support import validator as register
+    var = "CINCO_T_C14P_LOG_LEVEL"
+    for how in ("ctor", "decorator"):
+        s = cc.Schema(env="CINCO_T_C14P")
+        s.mode = cc.StringField(default="development", env=False)
+
+        def no_debug_in_production(cfg, value):
+            if value == "debug" and cfg.mode == "production":
+                raise ValueError("debug logging is not allowed in production")
+            return value
+        s.log_level = cc.StringField(default="info", validator=no_debug_in_production) if how == "ctor" else cc.StringField(default="info")
+        if how == "decorator":
+            register(s.log_level)(no_debug_in_production)
+        s.peers = cc.Field(validator=lambda cfg, value: value.split(",") if isinstance(value, str) else value)
+        os.environ[var] = "debug"
+        os.environ["CINCO_T_C14P_PEERS"] = "a,b"
+        try:
+            case = {"stream": "per-configuration", "validator_given_by": how}
+            res.case(stable(case), kind="per-configuration")
+            dev = s()
+            try:
+                prod = s(mode="production")
+                built = True
+            except Exception:  # noqa
+                built = False
+            if dev.log_level != "debug" or built:
+                res.violate("C14:variable-not-validated-per-configuration", "a configuration was built although the variable is invalid for it (the validation of an earlier "
+                            "configuration was reused)", dict(case, first=dev.log_level, second_built=built))
+            one, two = s(), s()
+            one.peers.append("c")
+            three = s()
+            if two.peers != ["a", "b"] or three.peers != ["a", "b"] or one.peers is two.peers:
+                res.violate("C14:variable-value-shared", "the validated value of a variable is one object shared by the configurations built under it",
+                            dict(case, second=two.peers, later=three.peers))
+            os.environ[var] = "warning"
+            changed = s()
+            if changed.log_level != "warning":
+                res.violate("C14:variable-not-read-again", "a configuration built after the variable changed does not hold the variable's current value",
+                            dict(case, held=changed.log_level))
+        finally:
+            os.environ.pop(var, None)
+            os.environ.pop("CINCO_T_C14P_PEERS", None)
+
+
 def run(ctx, n_quick=120, n_thorough=4000):
     res = Result()
     guard(res, "C14", names_stream, ctx, res)
     guard(res, "C14", precedence_stream, ctx, res, ctx.n(n_quick, n_thorough))
     guard(res, "C14", special_stream, ctx, res, ctx.n(60, 1500))
     guard(res, "C14", list_item_stream, ctx, res)
+    guard(res, "C14", per_configuration_stream, ctx, res)
     return res
 
 
